@@ -242,7 +242,7 @@ def units(tier, seed=0):
                 src_watch.append(('copy_ctor.src_watch', 'h_copy_ctor_src', 'copy_ctor', ['C06', 'C09'], [], {'cdefs': ['VF_WINDOWS=1'], 'srcwatch': 'copy_ctor'}))
             for name, h, key, props, repl, extra in vec.VEC_UNITS_COMMON + (vec.VEC_UNITS_VAR if L.is_varying() else vec.VEC_UNITS_FIXED) + src_watch:
                 if tracked:
-                    if name not in ('pop_back', 'clear', 'erase', 'dtor', 'emplace_back', 'subscript', 'copy_assign', 'move_assign', 'move_assign.src_watch', 'copy_ctor.src_watch') + (TRACKED_RELOC if len(L.params) == 1 else ()):
+                    if name not in ('pop_back', 'clear', 'erase', 'dtor', 'emplace_back', 'subscript', 'copy_assign', 'move_assign', 'move_assign.src_watch', 'copy_ctor.src_watch', 'moved_from') + (TRACKED_RELOC if len(L.params) == 1 else ()):
                         continue
                     if name in ('copy_assign', 'move_assign') and len(L.params) > 1:
                         continue   # exceeds the memory budget for mixed lists
